@@ -74,6 +74,25 @@ func runOne(ctx context.Context, s solverSpec, file string, timeout time.Duratio
 	return "unknown", text
 }
 
+// solveQuick runs only the fast first stage (one solver, at most 3 s).
+func solveQuick(script string, timeout time.Duration) SolveResult {
+	id := atomic.AddInt64(&queryCounter, 1)
+	file := filepath.Join(queryDir(), fmt.Sprintf("q%d.smt2", id))
+	os.WriteFile(file, []byte("(set-logic ALL)\n"+script+"(check-sat)\n"), 0o644)
+	defer func() {
+		if os.Getenv("GOVC_KEEP") == "" {
+			os.Remove(file)
+		}
+	}()
+	start := time.Now()
+	quick := 3 * time.Second
+	if timeout < quick {
+		quick = timeout
+	}
+	v, out := runOne(context.Background(), solvers[0], file, quick)
+	return SolveResult{Verdict: v, Solver: solvers[0].name, Output: trimOut(out), Agree: 1, Seconds: time.Since(start).Seconds()}
+}
+
 // solve runs the script (without check-sat; it is appended) on the portfolio.
 // getVals are symbols whose values are requested when sat.
 func solve(script string, getVals []string, timeout time.Duration, needAgree int) SolveResult {
